@@ -47,6 +47,30 @@ def kani_part(prop, tier, only, scratch_tag):
         info["cmds"].append(res["cmd"])
         info["tools"] = res.get("tools", {})
         info["wall_s"] = res["wall_s"]
+        if "fatal" in res and len(units) > 1 and "error" in res["fatal"]:
+            # the combined build failed (typically: one harness module no longer compiles against the changed source, e.g. an
+            # import it relied on is gone).  Do not give up on the whole property: build and run every unit on its own, so that
+            # only the harnesses of the unit that does not compile stay undecided.
+            log("kani: combined build failed (%s); retrying unit by unit" % res["fatal"][:160])
+            merged = {"cmd": res["cmd"] + "   [combined build failed: re-run unit by unit]", "harness": {}, "tools": {}, "wall_s": res["wall_s"]}
+            for u in units:
+                hs = [h for h in sel if h.unit is u]
+                if not hs:
+                    continue
+                with common.Scratch(scratch_tag + "-kani-" + u.name) as sc_u:
+                    kani.inject(sc_u, [u])
+                    r_u = kani.run_harnesses(sc_u, hs, max([timeout_each] + [h.timeout or 0 for h in hs]), jobs=min(12, max(1, len(hs))))
+                    merged["wall_s"] += r_u.get("wall_s", 0)
+                    if "fatal" in r_u:
+                        for h in hs:
+                            undecided.append("%s: unit %s does not build against this source: %s" % (h.name, u.name, r_u["fatal"][:200]))
+                        sel = [h for h in sel if h.unit is not u]
+                        continue
+                    for k_, v_ in r_u["harness"].items():
+                        v_["_linemap"] = getattr(sc_u, "linemap", None)
+                        merged["harness"][k_] = v_
+                    merged["tools"] = r_u.get("tools", merged["tools"])
+            res = merged
         if "fatal" in res:
             log(res["raw_tail"])
             raise Undecided("kani: " + res["fatal"])
@@ -70,7 +94,7 @@ def kani_part(prop, tier, only, scratch_tag):
                 continue
             groups = {}
             for c in checks:
-                groups.setdefault(kani.classify(c, h, getattr(sc, "linemap", None)), []).append(c)
+                groups.setdefault(kani.classify(c, h, r.get("_linemap") or getattr(sc, "linemap", None)), []).append(c)
             # vacuity guard
             reach = groups.get("reach", [])
             by_desc = {}
